@@ -251,7 +251,10 @@ class SetEncoder(encoder.SequenceEncoder):
                 elif (namedType.isDefaulted and
                         not isinstance(component, base.Asn1Item)):
                     # a constructed default given as a Python value
-                    if self._isDefaultPy(component, defaultValue):
+                    valueObject = self._asValueObject(component, defaultValue)
+
+                    if valueObject is not None and self._isDefault(
+                            valueObject, namedType, encodeFun, options):
                         continue
 
                 if namedType.isDefaulted and self._isDefault(
